@@ -765,6 +765,9 @@ def b_anyall(it, args, kwargs, node):
 
 
 def b_iter(it, args, kwargs, node):
+    if len(args) == 2:
+        # iter(callable, sentinel): analysed through its python-level model (a generator)
+        return it.call_function(it.an.prog.synthetic('iter_sentinel'), list(args), {}, node=node)
     return args[0]
 
 
